@@ -44,6 +44,7 @@ EnvStep ==
        [] Ev.a = "Crash" -> DoCrash(Ev.args.n)
        [] Ev.a = "Start" -> DoStart(Ev.args.n)
        [] Ev.a = "Snapshot" -> DoSnapshot(Ev.args.n, Ev.args.keep)
+       [] Ev.a = "ForeignOp" -> DoForeignPublish
        [] OTHER -> FALSE
 
 Hidden ==
@@ -67,7 +68,7 @@ Running(n) == disp[n].st \in {"run", "pub", "wait"}
 
 Match ==
   /\ Ev.a \notin {"Open", "End"}
-  /\ Ev.a \in {"Elect", "TakeOver", "StepDown", "Block", "Unblock", "Crash", "Start", "Snapshot"} => done
+  /\ Ev.a \in {"Elect", "TakeOver", "StepDown", "Block", "Unblock", "Crash", "Start", "Snapshot", "ForeignOp"} => done
   /\ rlog = TR /\ pub = TP /\ blocked = Ev.st.blocked
   /\ LET n == Focus IN
      IF Ev.st.up
